@@ -30,8 +30,8 @@ CHUNK = 1
 TASK_TIMEOUT_S = 900
 DDMIN_MAX_TESTS = 24
 MINIMISE_BUDGET_S = 300
-BUDGETS_S = (170, 2400)
-RUNS = {"C08": (160, 1500)}
+BUDGETS_S = (220, 2400)
+RUNS = {"C08": (200, 1500)}
 RULE = ("one run = one world: 1..3 interpreter lifetimes sharing one Numba cache directory, each "
         "with 1..5 aggregate() calls of 1..3 helpers over seeded frames (<=12 rows, 1..5 groups, "
         "unsorted, NA placement none/some/whole-group/whole-column), seeded cache faults between "
@@ -120,7 +120,7 @@ def apply_na(r, dtype, vals, n, groups, na_mode):
     return vals
 
 
-def gen_helper(r, dtype, hid, names, alphabet=None):
+def gen_helper(r, dtype, hid, names, alphabet=None, keep_na=False):
     fns = HELPERS_DT if dtype.startswith("datetime") else HELPERS_ALL
     if alphabet:
         fns = [f for f in fns if f in alphabet] or fns
@@ -128,6 +128,9 @@ def gen_helper(r, dtype, hid, names, alphabet=None):
     kw = {}
     if fn not in NO_DROP_NA and r.random() < 0.8:
         kw["drop_na"] = r.random() < 0.5
+    if fn not in NO_DROP_NA and keep_na:
+        # swarm: worlds in which missing values always take part in the computation
+        kw["drop_na"] = False
     if fn == "nth":
         kw["index"] = r.choice([0, 1, -1, 2, -2, 3, -4])
     if fn == "quantile":
@@ -163,7 +166,7 @@ def gen_call(r, cfg, hid_counter, pool):
     for _ in range(r.choice(cfg["helpers_per_call"])):
         if dtype2 is not None and r.random() < 0.5:
             hid_counter[0] += 1
-            h = gen_helper(r, dtype2, hid_counter[0], names, cfg.get("helper_alphabet"))
+            h = gen_helper(r, dtype2, hid_counter[0], names, cfg.get("helper_alphabet"), cfg.get("keep_na"))
             if h["col"] is not None:
                 h["col"] = "z"
             call["helpers"].append(h)
@@ -181,7 +184,7 @@ def gen_call(r, cfg, hid_counter, pool):
                 call["helpers"].append(h)
                 continue
         hid_counter[0] += 1
-        h = gen_helper(r, dtype, hid_counter[0], names, cfg.get("helper_alphabet"))
+        h = gen_helper(r, dtype, hid_counter[0], names, cfg.get("helper_alphabet"), cfg.get("keep_na"))
         call["helpers"].append(h)
         pool.append(h)
     if r.random() < cfg["toggle_rate"]:
@@ -211,7 +214,14 @@ def gen_world(rng, tier):
         # processes (the property's formulation: same history under either setting);
         # "inline": both paths alternate inside one process (runtime switching)
         "oracle": r.choice(["twin", "twin", "inline"]),
+        # swarm knobs for state that survives from one frame to the next: how often the caller
+        # keeps its helper objects for the following frames, and whether missing values are kept
+        "macro_rate": r.choice([0.4, 0.4, 0, 1.0]),
+        "keep_na": r.random() < 0.3,
     }
+    if r.random() < 0.25:
+        # floating-point worlds: the only type where NA, rounding and compile flags all matter
+        cfg["dtypes"] = r.choice([["float64"], ["float64", "int64"], ["float64", "float32"]])
     ops = []
     hid = [0]
     for li in range(cfg["nlifetimes"]):
@@ -250,7 +260,7 @@ def gen_world(rng, tier):
                 if fn in (HELPERS_DT if c["dtype"].startswith("datetime") else HELPERS_ALL):
                     c["helpers"][0] = dict(c["helpers"][0], fn=fn, kwargs={}, col="x", dtype=c["dtype"])
             ops.append(c)
-            if r.random() < 0.4 and "z" not in c["cols"]:
+            if r.random() < cfg["macro_rate"] and "z" not in c["cols"]:
                 if c["na_mode"] != "none" and r.random() < 0.6:
                     # start the macro from a complete frame
                     c["na_mode"] = "none"
